@@ -27,7 +27,7 @@ def exprOf : Expr → PyExpr
 def objOf (m : Inst) (i : Int) : PyAssetObj :=
   { id := i, type := (m.typeOf i).getD "", name := ((m.find i).map (·.name)).getD "" }
 
-def envOf (L : Lang) (m : Inst) : EvalEnv where
+def envOf (L : Lang) (m : Inst) (evalFuel : Nat := 0) : EvalEnv where
   get_associated_assets_by_field_name a f := (m.neighbours a.id f).map (objOf m)
   _get_variable_for_asset_type_by_name t v :=
     match L.lookupVar t v with
@@ -36,5 +36,6 @@ def envOf (L : Lang) (m : Inst) : EvalEnv where
   get_asset_by_name t := (L.findAsset t).map (·.name)
   is_subasset_of a b := L.isSub a b
   whileFuel := m.assets.length + 2
+  evalFuel := evalFuel
 
 end MalVerif.Py
